@@ -37,7 +37,9 @@ theorem enumErr_noCrash {vs : List (String × Bool)} {e : Err} (h : enumErr vs =
     · cases hb; rfl
     · split at hb
       · cases hb; rfl
-      · cases hb
+      · split at hb
+        · cases hb; rfl
+        · cases hb
 
 theorem ctorErr_noCrash {i : Nat} {e : Err} (h : ctorErr cfg i = some e) : e.isCrash = false := by
   unfold ctorErr ctorErrT at h
@@ -155,32 +157,49 @@ theorem inputFieldsOf_noCrash {i : Nat} {e : Err} (h : inputFieldsOf cfg i = .er
   · rw [if_pos he] at h; cases h; rfl
   · rw [if_neg he] at h; exact defineInputLoop_noCrash cfg _ e h
 
+theorem ifaceLoop_noCrash : ∀ (l : List (Option Nat)) (seen : List String) (e : Err), ifaceLoop cfg seen l = .error e →
+    e.isCrash = false := by
+  intro l
+  induction l with
+  | nil => intro seen e h; simp [ifaceLoop] at h
+  | cons x rest ih =>
+    intro seen e h
+    cases x with
+    | none => simp only [ifaceLoop, Except.error.injEq] at h; subst h; rfl
+    | some v =>
+      simp only [ifaceLoop] at h
+      split at h
+      · cases h; rfl
+      · cases hr : ifaceLoop cfg (nameOf cfg v :: seen) rest with
+        | error e' => simp only [hr, Except.error.injEq] at h; subst h; exact ih _ e' hr
+        | ok bs => simp [hr] at h
+
 theorem interfacesOf_noCrash {i : Nat} {e : Err} (h : interfacesOf cfg i = .error e) : e.isCrash = false := by
   unfold interfacesOf at h
   simp only at h
   split at h
   · cases h; rfl
   · cases h
-  · split at h
-    · cases h; rfl
-    · cases h
+  · exact ifaceLoop_noCrash cfg _ _ e h
 
-theorem unionLoop_noCrash {rt : Bool} : ∀ (l : List (Option Nat)) (e : Err), unionLoop cfg rt l = .error e →
-    e.isCrash = false := by
+theorem unionLoop_noCrash {rt : Bool} : ∀ (l : List (Option Nat)) (seen : List String) (e : Err),
+    unionLoop cfg rt seen l = .error e → e.isCrash = false := by
   intro l
   induction l with
-  | nil => intro e h; simp [unionLoop] at h
+  | nil => intro seen e h; simp [unionLoop] at h
   | cons x rest ih =>
-    intro e h
+    intro seen e h
     cases x with
     | none => simp only [unionLoop, Except.error.injEq] at h; subst h; rfl
     | some v =>
       simp only [unionLoop] at h
       split at h
       · cases h; rfl
-      · cases hr : unionLoop cfg rt rest with
-        | error e' => simp only [hr, Except.error.injEq] at h; subst h; exact ih e' hr
-        | ok bs => simp [hr] at h
+      · split at h
+        · cases h; rfl
+        · cases hr : unionLoop cfg rt (nameOf cfg v :: seen) rest with
+          | error e' => simp only [hr, Except.error.injEq] at h; subst h; exact ih _ e' hr
+          | ok bs => simp [hr] at h
 
 theorem membersOf_noCrash {i : Nat} {e : Err} (h : membersOf cfg i = .error e) : e.isCrash = false := by
   unfold membersOf at h
@@ -190,7 +209,7 @@ theorem membersOf_noCrash {i : Nat} {e : Err} (h : membersOf cfg i = .error e) :
   · cases h; rfl
   · split at h
     · cases h; rfl
-    · exact unionLoop_noCrash cfg _ e h
+    · exact unionLoop_noCrash cfg _ _ e h
 
 /-! the steps of a type: parked errors are ordinary errors, visit targets end in a named type -/
 
@@ -444,6 +463,24 @@ theorem build_strip_ne_nilPtr : ∀ (x : TRef) (k : Kind), x.build.strip ≠ .ni
       | badList => simp
       | badNonNull => simp
 
+theorem dirArgTypes_built : ∀ t ∈ dirArgTypes cfg, ∃ x : TRef, t = x.build := by
+  intro t ht
+  unfold dirArgTypes at ht
+  split at ht
+  · simp only [List.mem_cons, List.not_mem_nil, or_false] at ht
+    rcases ht with rfl | rfl | rfl
+    · exact ⟨.nonNull (.ref idBoolean), rfl⟩
+    · exact ⟨.nonNull (.ref idBoolean), rfl⟩
+    · exact ⟨.ref idString, rfl⟩
+  · rw [List.mem_flatMap] at ht
+    obtain ⟨d, _, htd⟩ := ht
+    cases d with
+    | none => cases htd
+    | some d =>
+      simp only [List.mem_map] at htd
+      obtain ⟨a, _, rfl⟩ := htd
+      exact ⟨a.type, rfl⟩
+
 theorem rootRefs_built (more : List TRef) : ∀ t ∈ rootRefs cfg more, ∃ x : TRef, t = x.build := by
   intro t ht
   simp only [rootRefs, List.mem_append, List.mem_map, List.mem_singleton] at ht
@@ -452,12 +489,13 @@ theorem rootRefs_built (more : List TRef) : ∀ t ∈ rootRefs cfg more, ∃ x :
     cases o with
     | none => cases h
     | some i => simp only [optRoot, List.mem_singleton] at h; exact ⟨.ref i, by rw [h]; rfl⟩
-  rcases ht with (((h | h) | h) | h) | h
+  rcases ht with ((((h | h) | h) | h) | h) | h
   · exact opt _ h
   · exact opt _ h
   · exact opt _ h
   · exact ⟨.ref idSchema, by rw [h]; rfl⟩
   · obtain ⟨x, _, rfl⟩ := h; exact ⟨x, rfl⟩
+  · exact dirArgTypes_built cfg t h
 
 theorem reduceRoots_noCrash : ∀ (roots : List TRef) (tm : TM) (e : Err), (∀ t ∈ roots, ∃ x : TRef, t = x.build) →
     Inv cfg tm → reduceRoots cfg tm roots = .error e → e.isCrash = false := by
@@ -487,7 +525,24 @@ theorem reduceRoots_noCrash : ∀ (roots : List TRef) (tm : TM) (e : Err), (∀ 
           simp only [hr] at h
           exact ih tm1 e hrest (reduce_spec cfg _ tm t tm1 hr hinv).inv h
 
-theorem dirErr_noCrash {d : Option DirCfg} {e : Err} (h : dirErr d = some e) : e.isCrash = false := by
+theorem dirArgsErr_noCrash : ∀ (as : List ArgCfg) (e : Err), dirArgsErr cfg as = some e → e.isCrash = false := by
+  intro as
+  induction as with
+  | nil => intro e h; simp [dirArgsErr] at h
+  | cons a rest ih =>
+    intro e h
+    simp only [dirArgsErr] at h
+    split at h
+    · cases h; rfl
+    · split at h
+      · cases h; rfl
+      · split at h
+        · cases h; rfl
+        · split at h
+          · cases h; rfl
+          · exact ih e h
+
+theorem dirErr_noCrash {d : Option DirCfg} {e : Err} (h : dirErr cfg d = some e) : e.isCrash = false := by
   cases d with
   | none => simp [dirErr] at h; subst h; rfl
   | some d =>
@@ -496,13 +551,7 @@ theorem dirErr_noCrash {d : Option DirCfg} {e : Err} (h : dirErr d = some e) : e
     · cases h; rfl
     · split at h
       · cases h; rfl
-      · refine findSome?_pred (P := fun e => e.isCrash = false) ?_ _ e h
-        intro x b hb
-        split at hb
-        · cases hb; rfl
-        · split at hb
-          · cases hb; rfl
-          · cases hb
+      · exact dirArgsErr_noCrash cfg _ e h
 
 theorem fieldConforms_noCrash {k : Nat → Kind} {p : Nat → Nat → Bool} {ofs : List BField} {f : BField} {e : Err}
     (h : fieldConforms k p ofs f = some e) : e.isCrash = false := by
@@ -569,7 +618,7 @@ theorem newSchema_noCrash {more : List TRef} {e : Err} (h : newSchema cfg more =
         · split at htm
           · rename_i e'' hd
             cases htm
-            exact findSome?_pred (P := fun e => e.isCrash = false) (fun x b hb => dirErr_noCrash hb) _ _ hd
+            exact findSome?_pred (P := fun e => e.isCrash = false) (fun x b hb => dirErr_noCrash cfg hb) _ _ hd
           · exact reduceRoots_noCrash cfg _ [] _ (rootRefs_built cfg more)
               ⟨fun i hi => (by cases hi), List.Pairwise.nil⟩ htm
 
